@@ -13,6 +13,9 @@ Extracted (nothing is guessed; an unrecognised body gives `none` and a failed st
                         ExecutionContext have the transcribed bodies
   * instrShape          GET / MEM / UPDATE / GET_AND_UPDATE of instructions/struct.py call get / contains / update
   * keyHashPrefix / keyHashDigestSize   `forge_script_expr` = base58 `expr` of Blake2b with a 32-byte digest
+  * packShape           `MichelsonType.pack` = `05 ‖ forge(legacy_optimized | optimized)`, `forge` = `forge_micheline(to_micheline_value(mode))`,
+                        and `PairType.to_micheline_value` keeps `self.items` (two components, never a flattened comb) in the
+                        `legacy_optimized` mode and writes them as one `Pair` primitive
   * duplicateShape      `BigMapType.duplicate` (DUP): same id, deep copies of the stored items and removed keys
   * mergeShape          how `merge_lazy_diff` (pytezos' own reading of an emitted diff) decides that an update carries a
                         value: `is not None` (repaired) or truthiness (pinned: an empty-sequence value — `{}` — reads as a removal)
@@ -208,6 +211,40 @@ def get_big_map_value(self, ptr, key_hash):
 ''',
 }
 
+PACK = '''
+def pack(self, legacy=False):
+    data = self.forge(mode='legacy_optimized' if legacy else 'optimized')
+    return b'\\x05' + data
+'''
+
+FORGE = '''
+def forge(self, mode='readable'):
+    val_expr = self.to_micheline_value(mode=mode)
+    return forge_micheline(val_expr)
+'''
+
+PAIR_MICH = '''
+def to_micheline_value(self, mode='readable', lazy_diff=False):
+    if mode == 'legacy_optimized':
+        items = self.items
+    else:
+        items = list(self.iter_comb())
+    args = [arg.to_micheline_value(mode=mode, lazy_diff=lazy_diff) for arg in items]
+    if mode in ['readable', 'legacy_optimized']:
+        return {'prim': 'Pair', 'args': args}
+    elif mode == 'optimized':
+        if len(args) == 2:
+            return {'prim': 'Pair', 'args': args}
+        elif len(args) == 3:
+            return {'prim': 'Pair', 'args': [args[0], {'prim': 'Pair', 'args': args[1:]}]}
+        elif len(args) >= 4:
+            return args
+        else:
+            raise AssertionError(f'unexpected number of args {len(args)}')
+    else:
+        raise AssertionError(f'unsupported mode {mode}')
+'''
+
 DUPLICATE = '''
 def duplicate(self):
     res = type(self)(items=deepcopy(self.items), ptr=self.ptr, removed_keys=deepcopy(self.removed_keys))
@@ -308,6 +345,11 @@ def gen_c15(status):
          'one diff entry: id/action from `get_big_map_diff`, one update per element of `self`, result = empty map at the new id')
     flag('BigMapType.attach_context shape', 'attachShape', _same(find_func(bm, 'attach_context'), ATTACH),
          '`attach_context`: temporary id for a literal, `register_big_map` for an id')
+    base = find_class(parse('michelson/types/base.py'), 'MichelsonType')
+    pair = find_class(parse('michelson/types/pair.py'), 'PairType')
+    flag('pack(legacy) = 05 + forge_micheline(legacy_optimized form), pairs unflattened', 'packShape',
+         _same(find_func(base, 'pack'), PACK) and _same(find_func(base, 'forge'), FORGE) and _same(find_func(pair, 'to_micheline_value'), PAIR_MICH),
+         '`pack(legacy=True)` = `05 ‖ forge_micheline(to_micheline_value(legacy_optimized))`; a pair keeps its two components')
     flag('BigMapType.duplicate shape', 'duplicateShape', _same(find_func(bm, 'duplicate'), DUPLICATE),
          '`duplicate` (DUP): same id, deep copies of the stored items and of the removed keys')
     mfn = find_func(bm, 'merge_lazy_diff')
